@@ -310,6 +310,9 @@ func runScripts(f lib.Flags, res *lib.Result, w *world, drv *lib.Driver) {
 	var pool []scase
 	for i, c := range cases {
 		if drv != nil && wf[i] == "true" && !strings.ContainsAny(c.Cli, "xd") && c.Amp == 0 {
+			if c.Shape == "cstream" && c.Fin != "OK" && strings.Contains(c.Srv, "M") {
+				continue // response-then-error: the asynchronous outcome sets are stated for the streaming run only
+			}
 			pool = append(pool, c)
 		}
 	}
